@@ -34,12 +34,42 @@ struct F_png {
     static const char* ext() { return "png"; }
     static const bool has_FILE = true;
     static const bool subrect = true;
+    static const bool strict_field_reads = false;
+    static const bool has_info_all = true;
+    static size_t fixed_header_len(std::string const&) { return 0; }
+    // read_image_info with every optional read_* switch on: the ancillary-chunk getters of the backend
+    template <class Src> static void info_all(Src& s, outcome& o) {
+        gil::image_read_settings<tag> st; st.set_read_members_true();
+        auto be = gil::read_image_info(s, st);
+        o.info = info_str(be._info) + " | " + backend_common(be);
+    }
+    template <class Backend> static std::string backend_extra(Backend const&) { return std::string(); }
     typedef std::tuple<gil::gray8_image_t, gil::rgb8_image_t, gil::rgba8_image_t, gil::gray16_image_t, gil::rgb16_image_t> natives;
     typedef std::tuple<gil::rgba8_image_t, gil::gray16_image_t> conv_targets;
     typedef gil::any_image<gil::gray8_image_t, gil::rgb8_image_t, gil::rgba8_image_t, gil::rgb16_image_t> any_t;
     static std::string info_str(gil::image_read_info<tag> const& i) {
-        return vh::cat("w=", i._width, " h=", i._height, " bd=", (int)i._bit_depth, " ct=", (int)i._color_type, " il=", (int)i._interlace_method,
-                       " cm=", (int)i._compression_method, " fm=", (int)i._filter_method, " nch=", (int)i._num_channels);
+        dumper d;
+        d.f("w", i._width).f("h", i._height).f("bd", i._bit_depth).f("ct", i._color_type).f("il", i._interlace_method).f("cm", i._compression_method)
+         .f("fm", i._filter_method).f("nch", i._num_channels)
+         .f("vcie", i._valid_cie_colors).f("wx", i._white_x).f("wy", i._white_y).f("rx", i._red_x).f("ry", i._red_y).f("gx", i._green_x).f("gy", i._green_y)
+         .f("bx", i._blue_x).f("by", i._blue_y).f("vgam", i._valid_file_gamma).f("gam", i._file_gamma)
+         .f("vicc", i._valid_icc_profile).f("iccn", i._icc_name).f("iccc", i._iccp_compression_type).f("iccp", i._profile).f("iccl", i._profile_length)
+         .f("vint", i._valid_intent).f("int", i._intent).f("vpal", i._valid_palette).f("pal", i._palette).f("npal", i._num_palette)
+         .f("vbg", i._valid_background)
+         .f("bgi", i._background.index).f("bgr", i._background.red).f("bgg", i._background.green).f("bgb", i._background.blue).f("bgy", i._background.gray)
+         .f("vhist", i._valid_histogram).f("hist", i._histogram).f("voff", i._valid_offset).f("ox", i._offset_x).f("oy", i._offset_y).f("ou", i._off_unit_type)
+         .f("vcal", i._valid_pixel_calibration).f("purp", i._purpose).f("X0", i._X0).f("X1", i._X1).f("calt", i._cal_type).f("caln", i._num_params)
+         .f("units", i._units).f("params", i._params)
+         .f("vres", i._valid_resolution).f("resx", i._res_x).f("resy", i._res_y).f("resu", i._phy_unit_type).f("ppm", i._pixels_per_meter)
+         .f("vsig", i._valid_significant_bits).f("sbr", i._sig_bits.red).f("sbg", i._sig_bits.green).f("sbb", i._sig_bits.blue).f("sby", i._sig_bits.gray).f("sba", i._sig_bits.alpha)
+         .f("vscal", i._valid_scale_factors).f("scu", i._scale_unit).f("scw", i._scale_width).f("sch", i._scale_height)
+         .f("vtext", i._valid_text).f("ntext", i._num_text).f("textn", (uint64_t)i._text.size());
+        for (auto const& t : i._text) d.f("tc", t._compression).f("tk", t._key).f("tt", t._text);
+        d.f("vmod", i._valid_modification_time).f("my", i._mod_time.year).f("mm", i._mod_time.month).f("md", i._mod_time.day).f("mh", i._mod_time.hour)
+         .f("mi", i._mod_time.minute).f("ms", i._mod_time.second)
+         .f("vtr", i._valid_transparency_factors).f("tr", i._trans).f("ntr", i._num_trans).f("trvn", (uint64_t)i._trans_values.size());
+        for (auto const& c : i._trans_values) d.f("ti", c.index).f("tr", c.red).f("tg", c.green).f("tb", c.blue).f("ty", c.gray);
+        return d.str();
     }
     static bool parse_dims(std::string const& b, long& w, long& h, uint64_t& extra) {
         extra = 0;
@@ -104,6 +134,8 @@ static std::string png_build(int w, int h, int bit_depth, int color_type, int pa
     return b;
 }
 static std::vector<seed_t> g_seeds;
+static std::string png_insert_after_ihdr(std::string const& b, std::string const& chunk);
+static std::string png_text_chunk(bool compressed, size_t len, uint64_t seed);
 static void build_seeds() {
     auto& v = g_seeds;
     add_seed(v, "c-gray8-7x5", "gray8", png_build(7, 5, 8, 0, 0, 0, 1), 0, true);
@@ -127,13 +159,40 @@ static void build_seeds() {
     add_seed(v, "w-rgba8-5x4", "rgba8", written(gil::const_view(seeded_image<gil::rgba8_image_t>(5, 4, 24)), wi), 2, false);
     add_seed(v, "w-rgb16-4x3", "rgb16", written(gil::const_view(seeded_image<gil::rgb16_image_t>(4, 3, 25)), wi), 4, false);
     add_seed(v, "w-rgba16-3x2", "rgba16", written(gil::const_view(seeded_image<gil::rgba16_image_t>(3, 2, 26)), wi), 2, false);
+    add_seed(v, "c-rgb8-5x4+tEXt20000", "rgb8-longtext", png_insert_after_ihdr(png_build(5, 4, 8, 2, 0, 0, 5), png_text_chunk(false, 20000, 601)), 1, false);
+    add_seed(v, "c-rgb8-5x4+zTXt20000", "rgb8-longtext", png_insert_after_ihdr(png_build(5, 4, 8, 2, 0, 0, 5), png_text_chunk(true, 20000, 602)), 1, false);
     struct { const char* f; const char* variant; int kind; bool rep; } fx[] = {
         { "PngSuite/tbbn0g04.png", "gray4-trns", 0, false }, { "PngSuite/tbbn2c16.png", "rgb16-trns", 4, true }, { "PngSuite/tbbn3p08.png", "pal8-trns", 2, true },
         { "PngSuite/tbrn2c08.png", "rgb8-trns", 1, false }, { "PngSuite/tbwn0g16.png", "gray16-trns", 3, false }, { "PngSuite/tm3n3p02.png", "pal2-trns", 2, false },
         { "PngSuite/tp1n3p08.png", "pal8", 1, false }, { "EddDawson/36dpi.png", "rgb8-phys", 1, false }, { "grayscale-with-tRNS-chunk.png", "gray-trns", 0, false } };
     for (auto& x : fx) add_fixture(v, "png", x.f, x.variant, x.kind, x.rep);
 }
+static std::string png_insert_after_ihdr(std::string const& b, std::string const& chunk) { return b.substr(0, 33) + chunk + b.substr(33); }
+static std::string png_text_chunk(bool compressed, size_t len, uint64_t seed) {
+    vh::rng r(vh::mix(seed, 0x7E7));
+    std::string text; for (size_t i = 0; i < len; ++i) text.push_back((char)(32 + r.below(95)));
+    if (!compressed) return png_chunk_bytes("tEXt", std::string("Comment") + '\0' + text);
+    uLongf zl = compressBound(text.size()); std::string z(zl, '\0');
+    compress2((Bytef*)&z[0], &zl, (const Bytef*)text.data(), text.size(), 1); z.resize(zl);
+    return png_chunk_bytes("zTXt", std::string("Comment") + '\0' + '\0' + z);
+}
+static void long_chunks() {
+    std::string base = png_build(5, 4, 8, 2, 0, 0, 5);       // == the seed c-rgb8-5x4
+    for (int z = 0; z < 2; ++z) for (size_t len : { (size_t)100, (size_t)20000, (size_t)70000 })
+        MUTEQ(gil::rgba8_image_t, "long-chunk", vh::cat("rgb8+", z ? "zTXt" : "tEXt", "-", len), base, [&] { return png_insert_after_ihdr(base, png_text_chunk(z, len, 600 + len)); });
+    MUTEQ(gil::rgba8_image_t, "long-chunk", "rgb8+private-chunk-30000", base, [&] { return png_insert_after_ihdr(base, png_chunk_bytes("prVt", std::string(30000, 'p'))); });
+    MUTEQ(gil::rgba8_image_t, "long-chunk", "rgb8+tEXt-20000-after-IDAT", base, [&] {
+        std::string b = base; size_t at = b.size() - 12; return b.substr(0, at) + png_text_chunk(false, 20000, 640) + b.substr(at);
+    });
+    // length field of the long chunk against the data (CRCs re-computed and not)
+    std::string withtext = png_insert_after_ihdr(base, png_text_chunk(false, 20000, 650));
+    for (uint64_t v : { 0ull, 1ull, 7ull, 8ull, 19999ull, 20007ull, 20009ull, 40000ull, 1000000ull, 0x80000000ull, 0xFFFFFFFFull }) for (int fix = 0; fix < 2; ++fix)   // (not 0x7FFFFFFF: the system libpng has no chunk malloc limit and memsets 2 GiB per call)
+        MUT("long-chunk-length", vh::cat("tEXt20000:len=", v, fix ? "-crcfixed" : ""), false, true, [&] { std::string b = withtext; c11::put_be(b, 33, 4, v); return fix ? png_fix_crcs(b) : b; });
+    for (size_t c : { (size_t)33, (size_t)37, (size_t)41, (size_t)49, (size_t)4096, (size_t)8192, (size_t)20048, (size_t)20049, (size_t)20052, (size_t)20053, (size_t)20057, (size_t)20061 })
+        if (c < withtext.size()) MUT("long-chunk-truncate", vh::cat("tEXt20000@", c), true, true, [&] { return withtext.substr(0, c); });
+}
 static void targeted() {
+    long_chunks();
     // every (bit depth, colour type) combination, legal or not
     for (int ct : { 0, 1, 2, 3, 4, 5, 6, 7, 255 }) for (int bd : { 0, 1, 2, 3, 4, 8, 16, 32, 255 })
         MUT("depth-vs-type", vh::cat("ct", ct, "-bd", bd), false, true, [&] {
@@ -214,12 +273,19 @@ struct F_jpeg {
     static const char* ext() { return "jpg"; }
     static const bool has_FILE = true;
     static const bool subrect = true;
+    static const bool strict_field_reads = false;
+    static const bool has_info_all = false;
+    static size_t fixed_header_len(std::string const&) { return 0; }
+    template <class Src> static void info_all(Src&, outcome&) {}
+    template <class Backend> static std::string backend_extra(Backend const&) { return std::string(); }
     typedef std::tuple<gil::gray8_image_t, gil::rgb8_image_t, gil::cmyk8_image_t> natives;
     typedef std::tuple<gil::rgb8_image_t, gil::gray8_image_t> conv_targets;
     typedef gil::any_image<gil::gray8_image_t, gil::rgb8_image_t, gil::cmyk8_image_t> any_t;
     static std::string info_str(gil::image_read_info<tag> const& i) {
-        return vh::cat("w=", i._width, " h=", i._height, " nc=", (int)i._num_components, " cs=", (int)i._color_space, " prec=", (int)i._data_precision,
-                       " du=", (int)i._density_unit, " xd=", (int)i._x_density, " yd=", (int)i._y_density);
+        dumper d;
+        d.f("w", i._width).f("h", i._height).f("nc", i._num_components).f("cs", (int)i._color_space).f("prec", i._data_precision).f("du", i._density_unit)
+         .f("xd", i._x_density).f("yd", i._y_density).f("pwmm", i._pixel_width_mm).f("phmm", i._pixel_height_mm);
+        return d.str();
     }
     static bool parse_dims(std::string const& b, long& w, long& h, uint64_t& extra) {
         extra = 0;
@@ -257,6 +323,13 @@ struct F_jpeg {
 typedef F_jpeg F;
 static void format_setup() {}
 static std::vector<seed_t> g_seeds;
+// insert a marker segment with length field `len` (2..65535, counts itself) after SOI
+static std::string jpeg_insert(std::string const& b, int marker, unsigned len, uint64_t seed, size_t at = 2) {
+    std::string seg; seg.push_back((char)0xFF); seg.push_back((char)marker); c11::app_be(seg, 2, len);
+    vh::rng r(vh::mix(seed, 0x5E6));
+    for (unsigned i = 2; i < len; ++i) seg.push_back((char)r.next());
+    return b.substr(0, at) + seg + b.substr(at);
+}
 template <class Img> static Img smooth_image(int w, int h, uint64_t seed) {
     Img im(w, h); vh::rng r(seed);
     auto v = gil::view(im);
@@ -275,8 +348,55 @@ static void build_seeds() {
     add_seed(v, "w-gray8-17x33", "gray8", written(gil::const_view(smooth_image<gil::gray8_image_t>(17, 33, 36)), wi), 0, false);
     add_fixture(v, "jpeg", "EddDawson/36dpi.jpg", "rgb8-density", 1, true);
     add_fixture(v, "jpeg", "test.jpg", "rgb8-large", 1, false);
+    // valid files with a long ignorable marker segment right after SOI (appended last: targeted() indexes the seeds above).
+    // GIL's source manager refills a 4096-byte buffer; skipping such a segment needs several refills.
+    std::string base = v[1].bytes;
+    add_seed(v, "w-rgb8-9x7+COM3072", "rgb8-longseg", jpeg_insert(base, 0xFE, 3072, 71), 1, false);
+    add_seed(v, "w-rgb8-9x7+APP1-8192", "rgb8-longseg", jpeg_insert(base, 0xE1, 8192, 72), 1, false);
+    add_seed(v, "w-rgb8-9x7+COM20000", "rgb8-longseg", jpeg_insert(base, 0xFE, 20000, 73), 1, false);
+    add_seed(v, "w-rgb8-9x7+APP1-65535", "rgb8-longseg", jpeg_insert(base, 0xE1, 65535, 74), 1, false);
+}
+static void long_segments() {
+    std::string base = g_seeds[1].bytes, gray = g_seeds[0].bytes;
+    // (a) valid: the decoder must skip the segment and deliver the pixels of the file without it
+    unsigned lens[] = { 2, 3, 3072, 4091, 4092, 4093, 4094, 8187, 8188, 8189, 8192, 12284, 12285, 20000, 40000, 65534, 65535 };
+    for (int marker : { 0xFE, 0xE1 }) for (unsigned len : lens)
+        MUTEQ(gil::rgb8_image_t, "long-segment", vh::cat("rgb8+", marker == 0xFE ? "COM" : "APP1", "-", len), base, [&] { return jpeg_insert(base, marker, len, 100 + len); });
+    for (unsigned len : { 8192u, 65535u })
+        MUTEQ(gil::gray8_image_t, "long-segment", vh::cat("gray8+APP13-", len), gray, [&] { return jpeg_insert(gray, 0xED, len, 200 + len); });
+    // two long segments in a row; a long segment after the tables (between DHT and SOS); a long segment that ends one byte before a refill
+    MUTEQ(gil::rgb8_image_t, "long-segment", "rgb8+COM9000+APP2-9000", base, [&] { return jpeg_insert(jpeg_insert(base, 0xE2, 9000, 301), 0xFE, 9000, 302); });
+    MUTEQ(gil::rgb8_image_t, "long-segment", "rgb8+COM5000+COM5000+COM5000", base, [&] { return jpeg_insert(jpeg_insert(jpeg_insert(base, 0xFE, 5000, 303), 0xFE, 5000, 304), 0xFE, 5000, 305); });
+    for (unsigned len : { 4096u, 10000u, 65535u })
+        MUTEQ(gil::rgb8_image_t, "long-segment", vh::cat("rgb8+COM", len, "-before-SOS"), base, [&] {
+            size_t at = 2; for (auto const& g : jpeg_segments(base)) if (g.marker == 0xDA) at = g.off;
+            return jpeg_insert(base, 0xFE, len, 310 + len, at);
+        });
+    // (b) the length field of a long segment against the bytes that follow (corrupted segment lengths of every size class)
+    for (unsigned real : { 8192u, 20000u, 65535u }) {
+        unsigned vals[] = { 0, 1, 2, 3, 4, 100, 4090, 4092, 4094, 4096, 8186, 8188, 8190, 8192, 8194, 12288, 19999, 20001, 0x7FFF, 0x8000, 0xFFFE, 0xFFFF };
+        for (unsigned v : vals) {
+            if (v == real) continue;
+            MUT("long-segment-length", vh::cat("COM", real, ":len=", v), false, true, [&] { std::string b = jpeg_insert(base, 0xFE, real, 400 + real); c11::put_be(b, 4, 2, v); return b; });
+        }
+    }
+    // a declared-long segment in a short file (the bytes to skip run out): every size class
+    for (unsigned v : { 200u, 4000u, 4096u, 5000u, 8192u, 9000u, 20000u, 65535u })
+        MUT("long-segment-length", vh::cat("APP1-in-short-file:len=", v), false, true, [&] { std::string b = jpeg_insert(base, 0xE1, 64, 450); c11::put_be(b, 4, 2, v); return b; });
+    // (c) truncations of a file with a long segment around the refill boundaries and the end of the segment
+    for (unsigned real : { 8192u, 20000u }) {
+        std::string full = jpeg_insert(base, 0xFE, real, 500 + real);
+        size_t seg_end = 4 + real;
+        size_t cuts[] = { 4, 5, 6, 4094, 4095, 4096, 4097, 4098, 8190, 8191, 8192, 8193, 8194, 12287, 12288, 12289, seg_end - 2, seg_end - 1, seg_end, seg_end + 1, seg_end + 2, seg_end + 4,
+                          full.size() - 2, full.size() - 1 };
+        for (size_t c : cuts) {
+            if (c >= full.size()) continue;
+            MUT("long-segment-truncate", vh::cat("COM", real, "@", c), true, true, [&] { return full.substr(0, c); });
+        }
+    }
 }
 static void targeted() {
+    long_segments();
     std::string base = g_seeds[1].bytes, gray = g_seeds[0].bytes;
     std::vector<jpeg_seg> segs = jpeg_segments(base);
     auto find = [&](std::string const& b, int marker) { for (auto const& s : jpeg_segments(b)) if (s.marker == marker) return s; jpeg_seg z; z.off = 0; z.marker = 0; z.len = 0; return z; };
@@ -349,13 +469,20 @@ struct F_tiff {
     static const char* ext() { return "tif"; }
     static const bool has_FILE = false;         // GIL has no FILE* device for TIFF
     static const bool subrect = true;
+    static const bool strict_field_reads = false;
+    static const bool has_info_all = false;
+    static size_t fixed_header_len(std::string const&) { return 0; }
+    template <class Src> static void info_all(Src&, outcome&) {}
+    template <class Backend> static std::string backend_extra(Backend const&) { return std::string(); }
     typedef std::tuple<gil::gray8_image_t, gil::rgb8_image_t, gil::rgba8_image_t, gil::rgb16_image_t> natives;
     typedef std::tuple<gil::rgb8_image_t, gil::gray16_image_t> conv_targets;
     typedef gil::any_image<gil::gray8_image_t, gil::rgb8_image_t, gil::rgba8_image_t, gil::rgb16_image_t> any_t;
     static std::string info_str(gil::image_read_info<tag> const& i) {
-        return vh::cat("w=", i._width, " h=", i._height, " comp=", (int)i._compression, " bps=", (int)i._bits_per_sample, " spp=", (int)i._samples_per_pixel,
-                       " sf=", (int)i._sample_format, " pc=", (int)i._planar_configuration, " pi=", (int)i._photometric_interpretation, " tiled=", (int)i._is_tiled,
-                       " tw=", (long)i._tile_width, " tl=", (long)i._tile_length);
+        dumper d;
+        d.f("w", i._width).f("h", i._height).f("comp", i._compression).f("bps", i._bits_per_sample).f("spp", i._samples_per_pixel).f("sf", i._sample_format)
+         .f("pc", i._planar_configuration).f("pi", i._photometric_interpretation).f("tiled", i._is_tiled).f("tw", i._tile_width).f("tl", i._tile_length)
+         .f("xres", i._x_resolution).f("yres", i._y_resolution).f("ru", (int)i._resolution_unit).f("icc", i._icc_profile);
+        return d.str();
     }
     static bool parse_dims(std::string const& b, long& w, long& h, uint64_t& extra) {
         extra = 0; w = h = 0;
@@ -408,6 +535,7 @@ template <class Img> static std::string tiff_written(int w, int h, uint64_t seed
     wi._photometric_interpretation = gil::num_channels<Img>::value == 1 ? PHOTOMETRIC_MINISBLACK : PHOTOMETRIC_RGB;
     return written(gil::const_view(seeded_image<Img>(w, h, seed)), wi);
 }
+static std::string tiff_add_tag(std::string b, unsigned tag, unsigned type, uint32_t count, uint64_t seed);
 static void build_seeds() {
     auto& v = g_seeds;
     add_seed(v, "w-gray8-9x7-strip", "gray8-strip", tiff_written<gil::gray8_image_t>(9, 7, 41, COMPRESSION_NONE, false, 0), 0, true);
@@ -423,8 +551,48 @@ static void build_seeds() {
     { gil::image_write_info<gil::tiff_tag> wi; gil::gray1_image_t g(19, 5); gil::fill_pixels(gil::view(g), gil::gray1_image_t::value_type(0)); vh::rng r(51);
       auto gv = gil::view(g); for (int y = 0; y < 5; ++y) { auto it = gv.row_begin(y); for (int x = 0; x < 19; ++x, ++it) gil::at_c<0>(*it) = (unsigned)r.below(2); }
       add_seed(v, "w-gray1-19x5-strip", "gray1-strip", written(gil::view(g), wi), 0, false); }
+    add_seed(v, "w-rgb8-9x7-strip+private-tag-20000", "rgb8-strip-longtag", tiff_add_tag(v[1].bytes, 65000, 1, 20000, 699), 1, false);
+}
+// re-write the first IFD at the end of the file with one more entry (tags stay sorted: the new tag is the largest),
+// its `count` data bytes stored before the new IFD
+static std::string tiff_add_tag(std::string b, unsigned tag, unsigned type, uint32_t count, uint64_t seed) {
+    size_t ifd = 0; std::vector<tiff_entry> es = tiff_ifd(b, &ifd);
+    if (es.empty()) return b;
+    if (b.size() & 1) b.push_back((char)0);
+    size_t data_off = b.size();
+    vh::rng r(vh::mix(seed, 0x71F));
+    size_t unit = (type == 3 ? 2 : type == 4 ? 4 : 1);
+    for (size_t i = 0; i < (size_t)count * unit; ++i) b.push_back((char)r.next());
+    if (b.size() & 1) b.push_back((char)0);
+    size_t new_ifd = b.size();
+    c11::app_le(b, 2, es.size() + 1);
+    b += std::string(b.data() + ifd + 2, 12 * es.size());       // (the temporary is built before the append)
+    c11::app_le(b, 2, tag); c11::app_le(b, 2, type); c11::app_le(b, 4, count); c11::app_le(b, 4, data_off);
+    c11::app_le(b, 4, 0);
+    c11::put_le(b, 4, 4, new_ifd);
+    return b;
+}
+static void long_tags() {
+    std::string base = g_seeds[1].bytes, tiled = g_seeds[7].bytes;
+    struct { const char* id; unsigned tag, type; uint32_t count; } tc[] = { { "private65000-bytes20000", 65000, 1, 20000 }, { "private65001-undefined70000", 65001, 7, 70000 },
+                                                                            { "private65002-shorts10000", 65002, 3, 10000 }, { "private65003-longs5000", 65003, 4, 5000 } };
+    for (auto const& c : tc) {
+        MUTEQ(gil::rgb8_image_t, "long-tag", vh::cat("strip+", c.id), base, [&] { return tiff_add_tag(base, c.tag, c.type, c.count, 700 + c.tag); });
+        MUTEQ(gil::rgb8_image_t, "long-tag", vh::cat("tiled+", c.id), tiled, [&] { return tiff_add_tag(tiled, c.tag, c.type, c.count, 710 + c.tag); });
+    }
+    // count / offset of the long tag against the file
+    std::string with = tiff_add_tag(base, 65000, 1, 20000, 720);
+    for (uint64_t v : { 0ull, 1ull, 4ull, 5ull, 19999ull, 20001ull, 40000ull, 0x7FFFFFFFull, 0xFFFFFFFFull })
+        MUT("long-tag-count", vh::cat("private65000:count=", v), false, true, [&] {
+            std::string b = with; for (auto const& e : tiff_ifd(b)) if (e.tag == 65000) c11::put_le(b, e.off + 4, 4, v); return b;
+        });
+    for (unsigned long long v : { 0ull, 1ull, 8ull, (unsigned long long)with.size() - 1, (unsigned long long)with.size(), (unsigned long long)with.size() + 100, 0x7FFFFFFFull, 0xFFFFFFFFull })
+        MUT("long-tag-offset", vh::cat("private65000:offset=", v), false, true, [&] {
+            std::string b = with; for (auto const& e : tiff_ifd(b)) if (e.tag == 65000) c11::put_le(b, e.off + 8, 4, v); return b;
+        });
 }
 static void targeted() {
+    long_tags();
     std::string base = g_seeds[1].bytes, tiled = g_seeds[7].bytes, lzw = g_seeds[4].bytes;
     auto set_tag = [](std::string b, unsigned tag, int what /*0 type 1 count 2 value*/, uint64_t v) {
         for (auto const& e : tiff_ifd(b)) if (e.tag == tag) c11::put_le(b, e.off + (what == 0 ? 2 : what == 1 ? 4 : 8), what == 0 ? 2 : 4, v);
